@@ -22,7 +22,7 @@ BLOCK = 20
 STREAM_ORDER = ['ops', 'guards', 'chart', 'cfg']
 RULE = ('twin interpreters on the same chart and the same seeded script, ignore_contract=False (every condition true) vs True; lock-step '
         'equality of macro steps, configurations, contexts, sent events and the meta-event stream seen by an attached listener; the '
-        'ignoring twin is run a second time with every condition false and must behave identically with zero condition evaluations; in half of the runs both twins use an evaluator that returns lists (as the Evaluator interface documents) instead of lazy iterators. '
+        'ignoring twin is run a second time with every condition false and must behave identically with zero condition evaluations; in half of the runs both twins use an evaluator that returns lists (as the Evaluator interface documents) instead of lazy iterators; in a third of the runs every twin also has a property statechart with contracts bound the deprecated way, as an interpreter built with ignore_contract=True, whose conditions must never be evaluated. '
         'One run in four uses the shipped elevator_contract.yaml / microwave_with_contracts.yaml driven by seeded domain events and clock '
         'advances (comparison covers the steps before a legitimately failing condition). non-trivial = a twin run with >= 1 evaluated '
         'condition and >= 2 macro steps; distinct = distinct (chart, script)')
@@ -52,6 +52,43 @@ class Rec:
 
     def __call__(self, me):
         self.events.append((me.name, sorted((k, repr(v)) for k, v in me.data.items())))
+
+
+class Hits:
+    def __init__(self):
+        self.n = 0
+
+    def hit(self):
+        self.n += 1
+        return True
+
+
+def _watcher_chart():
+    """a property statechart with contracts of its own; its interpreter is built with ignore_contract=True and handed over the
+    deprecated way (bind_property_statechart(<interpreter>)): that flag is the interpreter's, whoever runs it"""
+    from sismic.model import Statechart, CompoundState, BasicState, Transition
+    sc = Statechart('watcher')
+    sc.add_state(CompoundState('r', initial='s'), None)
+    s_ = BasicState('s')
+    s_.invariants.append('Q.hit()')
+    s_.preconditions.append('Q.hit()')
+    sc.add_state(s_, 'r')
+    t_ = Transition('s', None, event='step started')
+    t_.postconditions.append('Q.hit()')
+    sc.add_transition(t_)
+    return sc
+
+
+WATCHER = _watcher_chart()
+
+
+def watch(it):
+    import warnings
+    hits = Hits()
+    with warnings.catch_warnings():
+        warnings.simplefilter('ignore')
+        it.bind_property_statechart(Interpreter(WATCHER, ignore_contract=True, initial_context={'Q': hits}))
+    return hits
 
 
 class ListEvaluator(PythonEvaluator):
@@ -86,6 +123,8 @@ def run_generated(ch, tier):
     sp = gen_spec(ch.s('chart'), cfg)
     a = Sim(sp, ignore_contract=False, clock=mkclock(), interpreter_klass=klass)
     ra = Rec(a.it)
+    watched = ch.s('cfg').flag(1, 3)
+    hits = [watch(a.it)] if watched else []
     recs = []
     erred = False
     for r in standard_ops(a, ch, tier, delays=True, hi=25 if tier == 'quick' else 60):
@@ -105,6 +144,8 @@ def run_generated(ch, tier):
     for variant in ('conditions-true', 'conditions-false'):
         b = Sim(sp, ignore_contract=True, clock=mkclock(), interpreter_klass=klass)
         rb = Rec(b.it)
+        if watched:
+            hits.append(watch(b.it))
         if variant == 'conditions-false':
             b.P.cond_truth = {j: False for j in range(sp.nconds)}
             b.P.default = True
@@ -131,8 +172,12 @@ def run_generated(ch, tier):
                             chart=sp.describe(), variant=variant)
         if [e for e in b.P.log if e[0] not in ('cond', 'tcond')] != [e for e in a.P.log if e[0] not in ('cond', 'tcond')]:
             return res.fail('twins-differ', 'executed code differs between the twins', chart=sp.describe(), variant=variant)
+    if any(h.n for h in hits):
+        return res.fail('evaluated-while-ignoring', 'a bound property statechart whose interpreter was built with ignore_contract=True evaluated '
+                        '%s contract conditions' % [h.n for h in hits], chart=sp.describe())
     if erred:
         raise Abandon('other: CodeEvaluationError in both twins')
+    res.stats['twin_runs_with_a_contract_ignoring_property_interpreter_bound'] += int(watched)
     res.stats['generated_twin_runs'] += 1
     res.stats['twin_runs_with_skewing_clock'] += int(skew)
     res.stats['twin_runs_with_a_list_returning_evaluator'] += int(klass is not Interpreter)
